@@ -2,12 +2,15 @@ package protocol
 
 import (
 	"errors"
+	"math"
 )
 
 var errBase10 = errors.New("failed to convert to Base10")
 
 func ByteToBase10(b []byte) (n uint64, err error) {
 	base := uint64(10)
+	// smallest n for which n*base overflows
+	cutoff := math.MaxUint64/base + 1
 
 	n = 0
 	for i := 0; i < len(b); i++ {
@@ -21,8 +24,20 @@ func ByteToBase10(b []byte) (n uint64, err error) {
 			err = errBase10
 			return
 		}
+		// refuse numbers that do not fit 64 bits instead of silently wrapping
+		if n >= cutoff {
+			n = 0
+			err = errBase10
+			return
+		}
 		n *= base
-		n += uint64(v)
+		n1 := n + uint64(v)
+		if n1 < n {
+			n = 0
+			err = errBase10
+			return
+		}
+		n = n1
 	}
 
 	return n, err
